@@ -93,6 +93,7 @@ class Scenario:
                                   'verif.refuse': True})
         self.client_disc = collections.Counter()   # sid -> DISCONNECTs fed
         self.lost = False
+        self.obs_violations = []
         self.events = []       # (tok, sid_at_feed or None, connected_at_feed)
         self.feed_log = []
 
@@ -151,6 +152,24 @@ class Scenario:
             await self.t2.socket.receive(eio_packet.Packet(
                 eio_packet.MESSAGE, f))
 
+    async def a_observe(self):
+        """The application looks at a session right after its disconnect
+        handler has finished (no suspension in between): from then on it is
+        not connected and in no room."""
+        m = self.d.sio.manager
+        for _ in range(3):
+            await self.gate.pause('start')
+            done = [(x[1], x[2]) for x in self.log
+                    if x[0] == 'disconnect_done']
+            for ns, sid in done:
+                rooms = list(self.d.sio.rooms(sid, namespace=ns))
+                conn = m.is_connected(sid, ns)
+                self.ctx.count('observations_after_disconnect_handler')
+                if rooms or conn:
+                    self.obs_violations.append(
+                        {'sid': sid, 'namespace': ns, 'rooms': rooms,
+                         'connected': conn})
+
     async def a_event(self):
         for tok in (1, 2):
             await self.gate.pause('start')
@@ -164,7 +183,8 @@ class Scenario:
         table = {'sdisc': self.a_sdisc, 'sdisc2': self.a_sdisc,
                  'cdisc': self.a_cdisc, 'sibling': self.a_sibling,
                  'lose': self.a_lose, 'recon': self.a_recon,
-                 'event': self.a_event, 'refuse2': self.a_refuse2}
+                 'event': self.a_event, 'refuse2': self.a_refuse2,
+                 'observe': self.a_observe}
 
         async def quiesce():
             for _ in range(300):
@@ -208,6 +228,14 @@ class Scenario:
             ctx.violation(None, 'asyncio schedule did not complete: a task '
                           'stays blocked', w)
             return 'blocked'
+        if self.obs_violations:
+            w['observations'] = self.obs_violations
+            ctx.violation(None, 'after its disconnect handler had finished a '
+                          'session was still %s' % (
+                              'in rooms %r' % self.obs_violations[0]['rooms']
+                              if self.obs_violations[0]['rooms']
+                              else 'connected'), w)
+            return 'observed'
         errs = d.errors()
         if errs:
             w['errors'] = [dict(e, tb=(e.get('tb') or '')[-1200:])
@@ -337,7 +365,9 @@ def specs():
                 ['sdisc', 'sibling', 'lose'], ['cdisc', 'lose', 'event'],
                 ['sdisc', 'cdisc', 'event'], ['sdisc', 'lose', 'recon'],
                 ['sdisc', 'sdisc2', 'cdisc'], ['sdisc', 'refuse2', 'cdisc'],
-                ['sdisc', 'refuse2', 'lose'], ['cdisc', 'refuse2', 'lose']):
+                ['sdisc', 'refuse2', 'lose'], ['cdisc', 'refuse2', 'lose'],
+                ['sdisc', 'observe'], ['cdisc', 'observe'],
+                ['lose', 'observe'], ['sdisc', 'lose', 'observe']):
         out.append({'actors': tri})
     return out
 
